@@ -92,16 +92,16 @@ def parse_template(text, variant=None):
     while i < len(lines):
         ln = lines[i]
         s = ln.strip()
-        m = re.match(r"//@(fn|struct|enum|trait|type|const)\s+(.*)$", s)
+        m = re.match(r"//@(statetags|fnset|fn|struct|enum|trait|type|const)\s+(.*)$", s)
         if m:
             if buf:
                 out.append(("text", "\n".join(buf) + "\n"))
                 buf = []
-            parts = [p.strip() for p in m.group(2).split("|")]
+            parts = [p.strip() for p in m.group(2).split("|", 2)]
             if len(parts) != 3:
                 raise SystemExit(f"template: bad directive: {s}")
             d = dict(kind=m.group(1), file=parts[0], container=parts[1], name=parts[2],
-                     ret=None, subs=[], loops={}, hints=[], spec=[], prologue=[], tags=[], keepattr=False, nobody=False,
+                     ret=None, subs=[], resubs=[], excepts=[], loops={}, hints=[], spec=[], prologue=[], tags=[], attrs=[], keepattr=False, nobody=False,
                      line=i + 1)
             cur = None
             i += 1
@@ -124,9 +124,17 @@ def parse_template(text, variant=None):
                     if not mm:
                         raise SystemExit(f"template line {i+1}: bad sub: {s}")
                     d["subs"].append((mm.group(1).replace("\\n", "\n"), mm.group(2).replace("\\n", "\n"), opt))
+                elif s.startswith("//@resub"):
+                    mm = re.match(r"//@resub\s+`(.*)`\s*=>\s*`(.*)`\s*$", s)
+                    if not mm:
+                        raise SystemExit(f"template line {i+1}: bad resub: {s}")
+                    d["resubs"].append((mm.group(1), mm.group(2)))
+                elif s.startswith("//@except"):
+                    d["excepts"].extend(s.split()[1:])
                 elif s.startswith("//@loop"):
                     cur = []
-                    d["loops"][int(s.split()[1])] = cur
+                    key = s.split()[1]
+                    d["loops"][key if key == "*" else int(key)] = cur
                 elif s.startswith("//@hint"):
                     mm = re.match(r"//@hint\s+(after|before)\s+`(.*)`\s*$", s)
                     if not mm:
@@ -141,6 +149,8 @@ def parse_template(text, variant=None):
                         cur.append("// @default " + " ".join(tags))
                 elif s.startswith("//@prologue"):
                     cur = d["prologue"]
+                elif s.startswith("//@attr"):
+                    d["attrs"].append(s[len("//@attr"):].strip())
                 elif s.startswith("//@keepattr"):
                     d["keepattr"] = True
                 elif s.startswith("//@nobody"):
@@ -336,6 +346,11 @@ LOOP_KW = {"loop", "while", "for"}
 
 def splice_fn(text, d, log):
     """text: the fn item after global rules. Insert ret name, spec, loop contracts, hints."""
+    nm = d["name"]
+    d = dict(d)
+    d["spec"] = [l.replace("{NAME}", nm) for l in d["spec"]]
+    d["loops"] = {k: [l.replace("{NAME}", nm) for l in v] for k, v in d["loops"].items()}
+    d["prologue"] = [l.replace("{NAME}", nm) for l in d["prologue"]]
     # substitutions first (on verbatim text)
     for old, new, opt in d["subs"]:
         c = text.count(old)
@@ -345,6 +360,11 @@ def splice_fn(text, d, log):
             raise LostAnchor(f"{d['name']}: substitution anchor not found: {old!r}")
         text = text.replace(old, new)
         log.append(f"SUB x{c}: {rs.norm(old)[:70]!r} => {rs.norm(new)[:70]!r}")
+
+    for pat, rep in d.get("resubs", []):
+        text, c = re.subn(pat, rep, text)
+        if c:
+            log.append(f"RESUB x{c}: /{pat[:60]}/ => {rep[:60]!r}")
 
     toks = rs.tokenize(text)
     n = len(toks)
@@ -404,7 +424,7 @@ def splice_fn(text, d, log):
             if u.kind == "ident" and u.text in LOOP_KW:
                 # `for` in `for<'a>` (HRTB) / `impl X for Y` doesn't occur in bodies we extract
                 ordinal += 1
-                if ordinal in d["loops"]:
+                if ordinal in d["loops"] or "*" in d["loops"]:
                     # find the loop body's `{` : first `{` at paren depth 0 that is not part of a struct literal.
                     q = k + 1
                     while q < bend:
@@ -415,11 +435,11 @@ def splice_fn(text, d, log):
                         if v.kind == "punct" and v.text == "{":
                             break
                         q += 1
-                    inv = "\n" + "\n".join("        " + l for l in d["loops"][ordinal]) + "\n    "
+                    inv = "\n" + "\n".join("        " + l for l in d["loops"].get(ordinal, d["loops"].get("*"))) + "\n    "
                     inserts.append((toks[q].start, toks[q].start, inv))
             k += 1
         for o in d["loops"]:
-            if o > ordinal:
+            if o != "*" and o > ordinal:
                 raise LostAnchor(f"{d['name']}: loop #{o} not found (body has {ordinal} loops)")
         # hints
         bstart, bstop = toks[body].start, toks[bend].end
@@ -458,7 +478,59 @@ def splice_fn(text, d, log):
     inserts.sort(key=lambda x: x[0], reverse=True)
     for a, b, s in inserts:
         text = text[:a] + s + text[b:]
+    if d.get("attrs"):
+        lead = re.match(r"\s*", text).group(0)
+        text = lead + "\n".join(d["attrs"]) + "\n" + text[len(lead):]
     return text
+
+
+def split_entered(text, name):
+    """R7: a `state!` expansion with enter actions has the shape
+         fn X(&mut self, context, input) -> StateResult { <enter actions>
+             let entered: fn(..) -> StateResult = |this, context, input| { BODY };
+             self.set_state(entered); return entered(self, context, input); }
+    It is split into X (enter actions, then set_state(Self::X__entered); return Self::X__entered(self, context, input))
+    and fn X__entered(&mut self, context, input) -> StateResult { BODY } with `this` renamed to `self`.
+    Returns [(name, text)] (one element if the shape does not occur)."""
+    toks = rs.tokenize(text)
+    sg = rs.sig(toks)
+    k = None
+    for a, b in zip(sg, sg[1:]):
+        if toks[a].kind == "ident" and toks[a].text == "let" and toks[b].kind == "ident" and toks[b].text == "entered":
+            k = a
+            break
+    if k is None:
+        return [(name, text)]
+    # signature: up to the fn body's opening brace
+    body = next(i for i in sg if toks[i].kind == "punct" and toks[i].text == "{")
+    # closure: first `|` after `=` following `let entered`
+    j = k
+    while not (toks[j].kind == "punct" and toks[j].text == "="):
+        j += 1
+    bars = []
+    q = j
+    while len(bars) < 2:
+        q += 1
+        if toks[q].kind == "punct" and toks[q].text == "|":
+            bars.append(q)
+    params = "".join(t.text for t in toks[bars[0] + 1:bars[1]])
+    if rs.norm(params) != "this, context, input":
+        raise LostAnchor(f"{name}: unexpected enter-action closure parameters: {params!r}")
+    q = bars[1] + 1
+    while toks[q].kind in ("ws", "comment"):
+        q += 1
+    if not (toks[q].kind == "punct" and toks[q].text == "{"):
+        raise LostAnchor(f"{name}: enter-action closure body not a block")
+    cend = rs.match_close(toks, q)
+    body_txt = "".join(("self" if (t.kind == "ident" and t.text == "this") else t.text) for t in toks[q:cend + 1])
+    tail = rs.norm("".join(t.text for t in toks[cend + 1:]))
+    if tail.replace(" ", "") != ";self.set_state(entered);returnentered(self,context,input);}":
+        raise LostAnchor(f"{name}: unexpected code after enter-action closure: {tail[:80]!r}")
+    sig_txt = text[:toks[body].start]
+    first = (text[:toks[k].start] + f"self.set_state(Self::{name}__entered);\n"
+             f"                return Self::{name}__entered(self, context, input);\n            }}")
+    second = re.sub(r"\bfn\s+" + re.escape(name) + r"\b", "fn " + name + "__entered", sig_txt, count=1) + body_txt
+    return [(name, first), (name + "__entered", second)]
 
 
 class Extractor:
@@ -475,6 +547,25 @@ class Extractor:
             src = open(path, encoding="utf-8").read()
             self.cache[f] = (src, rs.scan_items(src))
         return self.cache[f]
+
+    def expand_fnset(self, d):
+        """-> list of per-function directive dicts (source order) for a //@fnset."""
+        src, scanned = self.load(d["file"])
+        toks, items = scanned
+        out = []
+        rx = re.compile(d["name"])
+        for it in items:
+            if it.kind != "fn" or it.container is None or rs.norm(d["container"]) not in it.container:
+                continue
+            if not rx.search(it.name) or it.name in d["excepts"]:
+                continue
+            dd = dict(d)
+            dd["kind"] = "fn"
+            dd["name"] = it.name
+            out.append(dd)
+        if not out:
+            raise LostAnchor(f"fnset matched nothing: {d['file']} | {d['container']} | /{d['name']}/")
+        return out
 
     def extract(self, d):
         src, scanned = self.load(d["file"])
@@ -494,6 +585,25 @@ class Extractor:
         line = src.count("\n", 0, it.start) + 1
         log = []
         text = raw if d["keepattr"] else apply_global_rules(raw, kind, log)
+        if kind == "fn" and d.get("split_entered"):
+            parts = split_entered(text, d["name"])
+            if len(parts) == 2:
+                log.append("R7 enter-action closure split into " + parts[1][0])
+            outs = []
+            for (nm, tx) in parts:
+                d2 = dict(d)
+                d2["name"] = nm
+                sub_log = list(log)
+                outs.append((nm, splice_fn(tx, d2, sub_log), sub_log))
+            has_body = True
+            metas = []
+            for (nm, tx, lg) in outs:
+                metas.append((tx, dict(kind=kind, file=d["file"], container=d["container"], name=nm, has_body=True,
+                          src_line=line, src_bytes=len(raw), rules=lg,
+                          has_spec=bool(d["spec"]), n_spec_lines=len([l for l in d["spec"] if l.strip() and not l.strip().startswith("//")]),
+                          tags=sorted(set(d["tags"]) | set(t for l in d["spec"] for t in re.findall(r"@C\d+", l))),
+                          default_tags=d["tags"], n_loops=len(d["loops"]), n_hints=len(d["hints"]))))
+            return metas
         if kind == "fn":
             text = splice_fn(text, d, log)
             # items inside impl blocks: force `pub` not needed
@@ -530,14 +640,35 @@ def build(template_path, repo, out_path, expanded=None, variant=None):
             out.append(p)
             line += p.count("\n")
         else:
-            text, meta = ex.extract(p)
-            if not text.endswith("\n"):
-                text += "\n"
-            meta["out_line_start"] = line
-            line += text.count("\n")
-            meta["out_line_end"] = line - 1
-            out.append(text)
-            items.append(meta)
+            if p["kind"] == "statetags":
+                names = []
+                src0, _sc = ex.load(p["file"])
+                for dd in ex.expand_fnset(p):
+                    names.append(dd["name"])
+                    c = rs.find_item(src0, "fn", p["container"], dd["name"], _sc)
+                    if c and "let entered" in rs.norm(src0[c[0].start:c[0].end]):
+                        names.append(dd["name"] + "__entered")
+                text = ("// R4: one tag per state function (generated from the expanded source); stands for the fn pointer\n"
+                        "#[allow(non_camel_case_types)]\n#[derive(Clone, Copy, PartialEq, Eq)]\npub enum StateTag {\n"
+                        + "".join(f"    {n},\n" for n in names) + "}\n")
+                out.append(text)
+                line += text.count("\n")
+                continue
+            ds = ex.expand_fnset(p) if p["kind"] == "fnset" else [p]
+            for dd in ds:
+                if p["kind"] == "fnset":
+                    dd["split_entered"] = True
+                res1 = ex.extract(dd)
+                if isinstance(res1, tuple):
+                    res1 = [res1]
+                for (text, meta) in res1:
+                    if not text.endswith("\n"):
+                        text += "\n"
+                    meta["out_line_start"] = line
+                    line += text.count("\n")
+                    meta["out_line_end"] = line - 1
+                    out.append(text)
+                    items.append(meta)
     res = "".join(out)
     os.makedirs(os.path.dirname(os.path.abspath(out_path)), exist_ok=True)
     open(out_path, "w", encoding="utf-8").write(res)
